@@ -225,12 +225,16 @@ impl State for S {
             ["wrt", tok] => {
                 let Some(r) = parse_rec(tok) else { return "bad-op".into() };
                 match r.verif_encode_body() {
-                    Err(e) => show_err(&e),
+                    Err(e) => format!("refused | {}", show_err(&e)),
                     Ok(body) => match WalRecord::verif_decode_body(&body) {
                         Ok(r2) => format!("{} | {}", if same_rec(&r, &r2) { "ok" } else { "mismatch" }, digest(&body)),
-                        Err(e) => format!("{} | {}", show_err(&e), digest(&body)),
+                        Err(e) => format!("lost | {} {}", show_err(&e), digest(&body)),
                     },
                 }
+            }
+            ["depth", tok] => {
+                let Some(v) = parse_val(tok) else { return "bad-op".into() };
+                format!("ok {}", v.nesting_depth())
             }
             ["crc", h] => {
                 let Some(bs) = unhex(h) else { return "bad-op".into() };
@@ -307,6 +311,44 @@ pub fn gen_val(rng: &mut Rng, depth: u32) -> PV {
             PV::Map(m)
         }
     }
+}
+
+fn wrap(v: PV, kind: usize, i: usize) -> PV {
+    let as_map = match kind {
+        0 => false,
+        1 => true,
+        _ => i % 2 == 1,
+    };
+    if as_map { PV::Map(BTreeMap::from([("k".to_string(), v)])) } else { PV::List(vec![v]) }
+}
+
+/// values whose nesting sits at the decoder's limit: depths MAX-1 .. MAX+2, wrapped in lists / maps / alternating,
+/// around an innermost part that is an empty list, an empty map, a scalar holder, or mixed (the deepest container
+/// is empty while a shallower sibling holds a scalar)
+pub fn boundary_family() -> Vec<PV> {
+    let max = PV::MAX_NESTING_DEPTH;
+    let cores: Vec<(PV, usize)> = vec![
+        (PV::List(vec![]), 1),
+        (PV::Map(BTreeMap::new()), 1),
+        (PV::List(vec![PV::Null]), 1),
+        (PV::List(vec![PV::List(vec![]), PV::Int(1)]), 2),
+        (PV::List(vec![PV::List(vec![PV::Int(1)]), PV::List(vec![PV::List(vec![])])]), 3),
+        (PV::Map(BTreeMap::from([("a".to_string(), PV::Map(BTreeMap::new())), ("b".to_string(), PV::Int(1))])), 2),
+        (PV::List(vec![PV::Int(1), PV::Map(BTreeMap::from([("e".to_string(), PV::List(vec![]))]))]), 3),
+    ];
+    let mut out = Vec::new();
+    for depth in [max - 1, max, max + 1, max + 2] {
+        for kind in 0..3 {
+            for (core, c) in &cores {
+                let mut v = core.clone();
+                for i in 0..(depth - c) {
+                    v = wrap(v, kind, i);
+                }
+                out.push(v);
+            }
+        }
+    }
+    out
 }
 
 fn nested(n: usize, map: bool) -> PV {
@@ -485,8 +527,22 @@ fn generate(rng: &mut Rng, n: usize, _tier: &str, out: &mut dyn Write) {
         writeln!(out, "rt {}", show_val(&nested(d, true))).unwrap();
         writeln!(out, "wrt SNP/1/6b/{}", show_val(&nested(d, d % 2 == 0))).unwrap();
     }
+    writeln!(out, "#case nesting-boundary").unwrap();
+    for v in [PV::Null, PV::List(vec![]), PV::Map(BTreeMap::new()), PV::List(vec![PV::List(vec![]), PV::Int(1)])] {
+        writeln!(out, "depth {}", show_val(&v)).unwrap();
+    }
+    for v in boundary_family() {
+        let t = show_val(&v);
+        writeln!(out, "depth {t}").unwrap();
+        writeln!(out, "rt {t}").unwrap();
+        writeln!(out, "wrt SNP/1/6b/{t}").unwrap();
+        writeln!(out, "wrt SEP/1/2/3/6b/{t}").unwrap();
+    }
     writeln!(out, "#case random").unwrap();
     for i in 0..n {
+        if i % 10 == 5 {
+            writeln!(out, "depth {}", show_val(&gen_val(rng, 3))).unwrap();
+        }
         match i % 10 {
             0 | 1 => writeln!(out, "rt {}", show_val(&gen_val(rng, 3))).unwrap(),
             2 | 3 => {
